@@ -47,6 +47,7 @@ def cases(ctx, n, thorough):
             # caterpillar-ish: strongly decreasing lengths
             recs = [(n_, s[:max(1, len(s) - 3 * k)]) for k, (n_, s) in enumerate(recs)]
         type_ = rng.choice([3, 4, 5]) if kind == "protein" else rng.choice([0, 1, 2, 5])
+        type_ = gen.fit_type(type_, kind, recs)
         out.append(Case(recs, type_, threads=rng.choice([1, 4, 16]), fmt="fasta", api=rng.choice(["file", "arr"]), evlog=True,
                         jitter=rng.choice([0, 0, rng.randint(1, 10 ** 6)])))
     return out
